@@ -11,6 +11,7 @@ package pow
 // ---- C31: acceptance decision of a proof of work
 
 //@ func VerifySolution(req *protocol.ProofOfWork, p Parameters) (d *Decoded, err error)
+//@   opt frame=off
 //@   requires difficulty-fits-digest: p.Difficulty <= 256
 //@   requires window-no-overflow: 0 <= p.Expires && p.Expires <= 1<<61
 //@   ghost sigOK bool = false
